@@ -495,6 +495,20 @@ func sameImage(a, b map[string][]byte) bool {
 
 // Judge executes the history against the real single sequencer and judges it with the model.
 func Judge(h History) *Verdict {
+	return judgeBody(&h, nil, 0)
+}
+
+// judgeGen is Judge for a history that is generated while it is executed: the operations after
+// h.Ops are asked from gen, which sees the model's current set of possible states (so a workload
+// can steer by what the queue really holds), until nAccept submissions have been accepted (or
+// 8*nAccept operations executed). The history as executed is returned: Judge on it repeats the run.
+func judgeGen(h History, gen func(S []*mstate) Op, nAccept int) (*Verdict, History) {
+	v := judgeBody(&h, gen, nAccept)
+	return v, h
+}
+
+func judgeBody(hp *History, gen func(S []*mstate) Op, nAccept int) *Verdict {
+	h := *hp
 	v := &Verdict{Kind: "pass", At: -1, hits: map[string]int64{}, counts: map[string]int64{}}
 	im := world.NewImage()
 	if len(h.Legacy) > 0 {
@@ -520,7 +534,8 @@ func Judge(h History) *Verdict {
 	S := []*mstate{newLegacyState(h.Legacy)}
 	// the predicted deviations of the two recorded findings are only forked in histories without
 	// legacy records (there the unknown order of the first batches is legitimate, nothing else is)
-	tolerate := len(h.Legacy) == 0
+	// (nor in long histories: they are judged by the plain model)
+	tolerate := len(h.Legacy) == 0 && h.Region != regionLong
 	fail := func(i int, clause, detail string) *Verdict {
 		v.Kind, v.Clause, v.Detail, v.At = "violation", clause, detail, i
 		return v
@@ -537,6 +552,9 @@ func Judge(h History) *Verdict {
 	doRestart := func(i int) *Verdict {
 		if maxLen(S) >= 1 {
 			v.hit("restart-continuity")
+		}
+		if minLen(S) >= 2 {
+			v.count("restarts_with_2_or_more_batches_pending")
 		}
 		if err := restart(); err != nil {
 			return fail(i, "restart", "a new sequencer over the same datastore does not start: "+err.Error())
@@ -633,6 +651,9 @@ func Judge(h History) *Verdict {
 					} else {
 						v.count("rejections_with_another_error")
 					}
+				}
+				if o.Kind == "ok" {
+					v.counts["max_accepted_submissions_in_one_history"]++
 				}
 				S = stepSub(S, op.Batch, h.Bound, o)
 				if len(S) == 0 {
@@ -731,7 +752,15 @@ func Judge(h History) *Verdict {
 		return nil
 	}
 	i := 0
-	for ; i < len(h.Ops); i++ {
+	for ; i < len(h.Ops) || (gen != nil && v.counts["max_accepted_submissions_in_one_history"] < int64(nAccept) && i < 8*nAccept); i++ {
+		if i >= len(h.Ops) {
+			op := gen(S)
+			if op.Batch != "" {
+				names[contentKey(txsOf(op.Batch))] = op.Batch
+			}
+			h.Ops = append(h.Ops, op)
+			hp.Ops = h.Ops
+		}
 		if r := exec(i, h.Ops[i]); r != nil {
 			return r
 		}
